@@ -9,27 +9,36 @@ import (
 	"golang.org/x/tools/go/ssa"
 )
 
-// C12.R11–R14 — the bodies of the scope and audience strategies, as far as
+// C12.R11–R16 — the bodies of the scope and audience strategies, as far as
 // their documented meaning is visible in the shape of their paths.
 //
 // The strategies are small loops over (registered entries) x (requested
 // values); unrolled to the loop bound every path is a conjunction of literals
 // over the elements haystack[k] and needle / needle[j]. Whether the matching
-// language is implemented exactly (segment indexing, trailing wildcard) is a
-// question about values and stays undecided (8.2, R9); four clauses of the
-// documentation are not:
+// language is implemented exactly in every index is a question about values
+// and stays undecided (DESIGN 8.2, R9; 8.9); six clauses of the documentation
+// are not:
 //
-//	R11 comparators        a registered entry and a requested value are only ever compared by string
-//	                       equality, by length, or by a prefix test whose prefix ends with the segment
-//	                       delimiter ("exact is equality", "parents cover dotted children", "path prefix
-//	                       at segment boundaries"); no case folding anywhere in a strategy
+//	R11 comparators        a registered entry and a requested value are only ever related by string
+//	                       equality, by length, by membership, or by a prefix test at a segment boundary;
+//	                       no case folding; in the scope strategies no normalising of either side and no
+//	                       unanchored prefix / suffix test against a constant
 //	R12 covered-by-an-entry an accepting path with a non-empty request has examined an element of the
 //	                       registration (an empty or nil registration covers nothing)
 //	R13 exact-is-equality  ExactScopeStrategy accepts only with haystack[k] == needle and rejects only with
 //	                       none; ExactAudienceMatchingStrategy accepts only with every needle[j] (j below
 //	                       the length the path knows) equal to some haystack[k]
 //	R14 scheme-and-host    DefaultAudienceMatchingStrategy accepts a requested URL only with one entry whose
-//	                       scheme and host both equal the requested ones
+//	                       scheme and host both equal the requested ones and whose path is related to the
+//	                       requested path by a true equality or prefix literal
+//	R15 wildcard-needs-a-segment  one examined entry has every "*" segment against a non-empty request segment
+//	R16 entry-compared-completely one examined entry equals the request, is a delimiter-terminated prefix of
+//	                       it, or has a known number of segments all compared equal (or "*") and, for the
+//	                       wildcard strategy, is as long as the request or ends in "*"
+//
+// A function beyond the path bound, or deciding through a call that is not
+// traversed, is abstained on (a discharged obligation with layer "abstained"):
+// an alarm on a strategy written in an unforeseen spelling would be a false one.
 type stratFn struct {
 	fn       *ssa.Function
 	audience bool
@@ -313,7 +322,6 @@ func c12Strategies(c *Ctx) {
 		// ---------------------------------------------------------- R11 comparators
 		ok, why := true, ""
 		var w *Path
-		nMixed := 0
 		for _, p := range ex.Paths {
 			// remainders that the path tests for emptiness or for a leading delimiter
 			tested := map[string]bool{}
@@ -390,7 +398,6 @@ func c12Strategies(c *Ctx) {
 				if !h || !n {
 					continue
 				}
-				nMixed++
 				if f.Atom.Kind != "B" {
 					// string ordering of an entry against a request
 					if f.Atom.Kind == "LT" {
@@ -436,7 +443,6 @@ func c12Strategies(c *Ctx) {
 			}
 		}
 		c.Check(ok, "C12.R11", role, fn, "comparators:"+fn.Name(), "every literal relating a registered entry to a requested value is string equality, a length comparison or a prefix test at a segment boundary; no case folding", why, w)
-		_ = nMixed
 
 		// ---------------------------------------------------------- R12 covered by an entry
 		ok, why, w = true, "", nil
@@ -852,26 +858,6 @@ func c12Strategies(c *Ctx) {
 			}
 		}
 	}
-}
-
-// upperBounded: some literal of the path limits t from above (in any terms);
-// lower bounds are t > X, t >= X and t != X.
-func upperBounded(p *Path, t *Term) bool {
-	k := t.Key()
-	for _, f := range p.Facts {
-		a, b := f.Atom.A, f.Atom.B
-		if !(mentionsKey(a, k) || mentionsKey(b, k)) {
-			continue
-		}
-		switch {
-		case f.Atom.Kind == "LT" && b != nil && b.Key() == k && f.Pol: // X < t
-		case f.Atom.Kind == "LT" && a.Key() == k && !f.Pol: // !(t < X)
-		case f.Atom.Kind == "EQ" && !f.Pol:
-		case f.Atom.Kind == "LT" || f.Atom.Kind == "EQ":
-			return true
-		}
-	}
-	return false
 }
 
 func orStr(a, b string) string {
